@@ -5,26 +5,6 @@ use crate::uf::*;
 use crate::uf_tf;
 use crate::util::*;
 
-//@ id=C18 tier=quick to=2400 cfg=std exh=1 desc="ground on the real code: sinh(0) == tanh(0) == asinh(0) == atanh(0) == acosh(1) == 0 and cosh(0) == 1 exactly"
-#[cfg_attr(kani, kani::proof)]
-#[cfg_attr(kani, kani::unwind(17))]
-pub fn c18_exact_points() {
-    let z = gtf(0.0, 0.0);
-    let a = z.sinh();
-    assert!(a.hi() == 0.0 && a.lo() == 0.0);
-    let b = z.tanh();
-    assert!(b.hi() == 0.0 && b.lo() == 0.0);
-    let c = z.asinh();
-    assert!(c.hi() == 0.0 && c.lo() == 0.0);
-    let d = z.atanh();
-    assert!(d.hi() == 0.0 && d.lo() == 0.0);
-    let e = gtf(1.0, 0.0).acosh();
-    assert!(e.hi() == 0.0 && e.lo() == 0.0);
-    let f = z.cosh();
-    assert!(f.hi() == 1.0 && f.lo() == 0.0);
-    reached();
-}
-
 uf_tf!(T_LN, 2, fn uf_ln<>(x: TwoFloat) -> TwoFloat, key = k2(x));
 
 /// acosh(x) for x in (-1, 1): the argument handed to ln has a NaN word (sqrt of a negative value),
